@@ -16,6 +16,7 @@ import (
 
 	"kvassverif/internal/core"
 	_ "kvassverif/internal/e1"
+	_ "kvassverif/internal/e3"
 )
 
 func main() {
